@@ -349,7 +349,7 @@ func vsGenName(T *sim.Tape) string {
 		n += "/" + s
 	}
 	if T.Intn(3, "procs") == 0 {
-		n += "-" + []string{"8", "16", "1"}[T.Intn(3, "procsv")]
+		n += "-" + []string{"8", "16", "1", "", "123456789012345678901234567890", "0"}[T.Intn(6, "procsv")]
 	}
 	return n
 }
